@@ -277,6 +277,7 @@ def run(chk):
     from . import rules_C12, rules_C13, report
 
     report.include_rules(chk, r5, rules_C12, ("C12.R1", "C12.R2"), "the routed client is the hasher's answer for this call and the key passed on is this call's own key")
+    report.include_rules(chk, r5, rules_C12, ("C12.R3", "C12.R4"), "the multi-key operations hand every key to the server's client through its own multi-key method and return what it answered (no special-cased path that interprets values itself)")
     report.include_rules(chk, r5, rules_C13, ("C13.R1",), "a server that answered (or failed with something other than an OSError) is not marked as failing, so later calls are still sent to it like a plain Client would")
     chk.assume("the inner object of the wrappers is a Client (client_class); user-supplied client classes are outside the property")
 
